@@ -5,19 +5,24 @@ SPEC = dict(
     manifest=dict(
         category='proof',
         text="Lean proves on a hand model of proof/check_proof.py over the cell model: (completeness, Properties/C11.lean c11_complete, "
-             "c11_account_complete) every pruning of every spec-valid tree (PruneRel, any nesting of Merkle cells; uses the all-levels pruning "
-             "invariance of Proofs/Prune.lean) wrapped as a Merkle proof cell is accepted by check_proof and check_block_header_proof against the "
-             "original level-0 hash, and the account check accepts when the located account cell carries the state's hash -- no assumption on "
-             "SHA-256 beyond 32-byte output; (soundness) acceptance implies the cell is a well-formed Merkle proof cell (type, 280 bits, one ref, "
-             "stored hash and depth) whose child has the expected level-0 hash (c11_sound_shape, c11_reject_*), and under a LOCAL no-collision "
-             "hypothesis on the finite set of level-0 representations of the two trees, equal level-0 hashes force agreement of every unpruned "
-             "cell's data and references, pruned cells carrying exactly the hash/depth of the subtree they stand for (c11_binding_partial: trees "
-             "without inner Merkle cells; the general-level case is stated, not proved); account check: acceptance implies the supplied state's own "
+             "c11_account_complete) every pruning (PruneRel, any nesting of Merkle cells; uses the all-levels pruning invariance of Proofs/Prune.lean) of "
+             "every spec-valid level-0 tree of depth <= 1022, wrapped as a Merkle proof cell, can be constructed -- validity of the proof tree is derived "
+             "(Proofs/PruneWF.lean), not assumed -- and is accepted by check_proof and check_block_header_proof against the original level-0 hash, and "
+             "the account check accepts when the located account cell carries the state's hash -- no assumption on SHA-256 beyond 32-byte output; "
+             "(soundness) acceptance implies the cell is a well-formed Merkle proof cell (type, 280 bits, one ref, stored hash and depth) whose child has "
+             "the expected level-0 hash (c11_sound_shape, c11_reject_*), and under a LOCAL no-collision hypothesis on the finite list of representations "
+             "occurring in the two trees (every non-pruned cell at each of its significant levels, every pruned branch), equal level-l hashes force "
+             "Agree (c11_binding: EVERY level l, trees WITH inner Merkle proof/update cells, library cells, pruned branches of any mask; induction over the "
+             "tree carrying all significant levels <= l through the chained hashes, Proofs/Binding.lean): corresponding cells have equal hashes at the level "
+             "they are looked at, and each pair is either a pruned branch answering with a stored hash and the subtree carrying that hash, or two cells of "
+             "the same type with the same BIT STRING (padding invertibility, Proofs/Pad.lean), the same reference count and agreeing children; c11_sound: "
+             "accept => Agree 0 body t for every t with that level-0 hash, c11_sound_everywhere: and along every path of reference indices down to each unpruned cell; c11_reject_changed / c11_binding_pruned_hash: a changed bit, type or reference "
+             "of an unpruned cell and a substituted pruned hash are rejected; account check: acceptance implies the supplied state's own "
              "representation hash equals the level-0 hash of the located account cell, so a pruned branch (or a Merkle proof) that merely carries the "
              "hash is rejected (c11_account_sound, c11_account_reject_pruned). Tie: differential correspondence library = model on generated trees, "
              "random prunings, exhaustive single-bit flips of small proofs, sampled flips of larger ones, ref drops/swaps/substitutions, wrong hashes, "
-             "non-proof cells, wrong root counts, synthetic ShardStateUnsplit states with 1..50 accounts and forged states; every verdict is also "
-             "compared with the expectation known by construction.",
+             "non-proof cells, wrong root counts, synthetic ShardStateUnsplit states with 1..50 accounts (all HmLabel forms incl. zero-width lengths), forged "
+             "states, accounts cells without or with a cut HashmapAugE extra; every verdict is also compared with the expectation known by construction.",
         level_note='Trusted: Lean kernel; Spec/Cell.lean; Model/Cell.lean and Model/Proof.lean as hand transcriptions (sampled correspondence); '
                    'BoC decoding and the TL-B walk to the account cell are abstracted (parameter `locate`; the driver uses a lookup-only instance '
                    'that is compared with the library on generated states); SHA-256 is a parameter, soundness assumes no collision among the '
@@ -29,9 +34,9 @@ SPEC = dict(
          'depth 1, proof = MPROOF cell over the pruned tree; positive stream must be accepted by check_proof/check_block_header_proof; negative '
          'stream = every single-bit flip of every cell of small proofs, sampled bit/byte flips of larger ones, ref drop/duplicate/swap/substitute, '
          'wrong expected hashes, non-proof wrappers; account stream = synthetic ShardStateUnsplit with 1..50 accounts, state and header pruned off '
-         'the account path, forged account states (pruned branch / Merkle proof carrying the hash), wrong roots. distinct = distinct (dag, op, '
+         'the account path, forged account states (pruned branch / Merkle proof carrying the hash), wrong roots, accounts cell without / with a cut HashmapAugE extra (parser must raise). distinct = distinct (dag, op, '
          'hash); non-trivial = proof with at least one pruned branch or a negative case',
-    trusted_base=['Model/Proof.lean mirrors check_proof / check_block_header_proof / check_account_proof by hand (after fix commits 56bdc07, 3b51ac3, 83e0e94)',
+    trusted_base=['Model/Proof.lean mirrors check_proof / check_block_header_proof / check_account_proof by hand (after fix commits 56bdc07, 3b51ac3, 83e0e94, 67bd38d; locateAccount after f2933e1, 602ccc8)',
                   'BoC decoding (Cell.from_boc) and ShardStateUnsplit TL-B parsing are abstracted: roots list and `locate` parameter',
                   'Spec/Cell.lean transcribes the TON level-mask / per-level hash rules', 'SHA-256 abstract in theorems'],
     assumptions=['hashlib.sha256 is SHA-256', 'soundness theorems assume no SHA-256 collision among the cell representations of the two trees compared',
@@ -413,8 +418,11 @@ def enc_label(rng, s, n):
     if l and s in ('0' * l, '1' * l):
         opts += ['same', 'same']
     if w == 0:
-        opts = ['short']         # n = 0: the library's label reader does load_uint(0), which raises (non-canonical form anyway; C10's business)
+        # n = 0: the length field (#<= 0) has zero width and reads as 0 (library fix 602ccc8); hml_same then still has its value bit
+        opts = ['short', 'long', 'same0']
     o = rng.choice(opts)
+    if o == 'same0':
+        return '11' + rng.choice('01')
     if o == 'short':
         return '0' + '1' * l + '0' + s
     if o == 'long':
@@ -483,13 +491,24 @@ def gen_keys(rng, n):
     return sorted(keys)
 
 
-def gen_state(rng, db, naccounts):
-    """-> (state root node, accounts: key(int) -> account node, path: key -> [dict nodes on the path + accounts cell])"""
+def gen_state(rng, db, naccounts, extra_mode='full'):
+    """-> (state root node, accounts: key(int) -> account node, path: key -> [dict nodes on the path + accounts cell])
+    extra_mode != 'full': the accounts cell's top-level `extra:DepthBalanceInfo` (read by the parser since fix f2933e1) is absent or cut."""
     keys = gen_keys(rng, naccounts)
     accs = {k: gen_account_cell(rng, db) for k in keys}
     path = {k: [] for k in keys}
     droot = build_aug(rng, db, [(ubits(k, 256), accs[k], k) for k in keys], 256, path)
     eb, er = extra_bits(rng, db)       # ahme_root$1 root:^(HashmapAug ...) extra:DepthBalanceInfo
+    if extra_mode == 'none':           # nothing after the dictionary root
+        eb, er = '', []
+    elif extra_mode == 'short':        # fewer than the 9 bits of split_depth + Grams length
+        eb, er = eb[:rng.randrange(1, 9)], []
+    elif extra_mode == 'grams-cut':    # Grams length says 3 bytes, fewer are there
+        eb, er = ubits(rng.randrange(31), 5) + ubits(3, 4) + G.rand_bits(rng, 8 * rng.randrange(0, 3)), []
+    elif extra_mode == 'no-maybe':     # the ExtraCurrencyCollection Maybe bit is missing
+        eb, er = eb[:-1], []
+    elif extra_mode == 'no-ref':       # the Maybe bit announces a dictionary reference that is not there
+        eb, er = eb[:-1] + '1', []
     acell = db.add(G.ORD, '1' + eb, [droot] + er)
     for k in keys:
         path[k].append(acell)
@@ -713,12 +732,45 @@ def account_stream(ctx, rng):
                 run_account_case(ctx, dagx, [r0, r1], blk_hash, k2, o + a2, 'rej', 'account:other-state', 'state not committed by the header accepted')
 
 
+def extra_stream(ctx, rng):
+    """accounts cell WITHOUT (or with a cut) HashmapAugE extra: since fix f2933e1 the parser reads `extra:DepthBalanceInfo` after the dictionary
+    root, so these states cannot be parsed and the account check must raise (Model/Proof.lean `readsDepthBalance` = false). Unpruned proofs over an
+    otherwise valid state; 'none' carries the by-construction expectation, the cut variants are gray (model = library only), 'full' is the control."""
+    modes = (('none', 'rej', 'account:no-extra'), ('short', None, 'gray:extra-short'), ('grams-cut', None, 'gray:extra-grams-cut'),
+             ('no-maybe', None, 'gray:extra-no-maybe'), ('no-ref', None, 'gray:extra-no-ref'), ('full', 'acc', 'complete:account'))
+    for _ in range(ctx.n(2, 12)):
+        for mode, expect, fkey in modes:
+            db = G.DagBuilder()
+            sroot, accs, _ = gen_state(rng, db, rng.choice([1, 2, 3]), extra_mode=mode)
+            if not db.ok(sroot):
+                ctx.corr_broken(f'harness: generated shard state ({mode}) not spec-valid')
+                continue
+            sinfo = db.infos[sroot]
+            hdb = G.DagBuilder()
+            hroot, _, _ = gen_header(rng, hdb, sinfo)
+            if not hdb.ok(hroot) or hdb.infos[hroot].mask != 0:
+                continue
+            blk_hash = hdb.infos[hroot].H[0]
+            key = rng.choice(sorted(accs))
+            dag = []
+            o = append_dag(dag, hdb.nodes[:hroot + 1])
+            dag.append((G.MPROOF, G.mproof_bits(hdb.infos[hroot]), (o + hroot,)))
+            r0 = len(dag) - 1
+            o = append_dag(dag, db.nodes[:sroot + 1])
+            dag.append((G.MPROOF, G.mproof_bits(sinfo), (o + sroot,)))
+            r1 = len(dag) - 1
+            ctx.count(f'extra-mode:{mode}')
+            run_account_case(ctx, dag, [r0, r1], blk_hash, key, o + accs[key], expect, fkey,
+                             f'account proof over a state whose accounts cell has extra mode {mode!r}: wrong verdict')
+
+
 # ----------------------------------------------------------------------------- run / replay
 
 def run(ctx):
     rng = ctx.rng
     generic_streams(ctx, rng)
     account_stream(ctx, rng)
+    extra_stream(ctx, rng)
 
 
 def replay(ctx, payload):
